@@ -259,6 +259,9 @@ func RunChild(bin, mode string, c *ChildCase, strace bool, timeout time.Duration
 	var so, se bytes.Buffer
 	cmd.Stdout, cmd.Stderr = &so, &se
 	cmd.Env = append(os.Environ(), "GOTRACEBACK=single")
+	if os.Getenv("VERIF_WATCHDOG_DIR") != "" {
+		cmd.Env = append(os.Environ(), "GOTRACEBACK=system")
+	}
 	cmd.Env = append(cmd.Env, c.Env...)
 	if c.NNPCase != nil && c.NNPCase.PresetOnMain {
 		cmd.Env = append(cmd.Env, "VCHILD_LOCK_MAIN=1") // keeps the main goroutine on the main thread
@@ -279,6 +282,18 @@ func RunChild(bin, mode string, c *ChildCase, strace bool, timeout time.Duration
 	case <-done:
 	case <-time.After(timeout):
 		res.TimedOut = true
+		if wd := os.Getenv("VERIF_WATCHDOG_DIR"); wd != "" {
+			// debugging aid: keep the case and ask the runtime for a goroutine dump before the kill
+			os.MkdirAll(wd, 0o755)
+			os.WriteFile(filepath.Join(wd, filepath.Base(casePath)), b, 0o644)
+			syscall.Kill(-cmd.Process.Pid, syscall.SIGQUIT)
+			select {
+			case err := <-done:
+				done <- err
+			case <-time.After(3 * time.Second):
+			}
+			os.WriteFile(filepath.Join(wd, filepath.Base(casePath)+".out"), []byte(mode+"\n"+so.String()+"\n----\n"+se.String()), 0o644)
+		}
 		syscall.Kill(-cmd.Process.Pid, syscall.SIGKILL)
 		cmd.Process.Kill()
 		<-done
